@@ -422,6 +422,8 @@ where
             XRef::Invalid => panic!()
         };
         let primitive = obj.to_primitive(self)?;
+        // typed values of this object may be cached from before the update
+        self.cache.clear();
         match self.changes.entry(old.id) {
             Entry::Vacant(e) => {
                 e.insert((primitive, r.gen));
